@@ -393,6 +393,45 @@ func altBranchFamily(full bool) []Pat {
 	return finalize("ALTB", trees, map[string]bool{}, false)
 }
 
+// ---- BUMP: a leading unbounded loop (the shape that gets the bump-along shortcut) behind every kind of wrapper
+// (atomic, capture, plain group, nestings) with something after the loop inside the wrapper and after it ----
+
+func bumpFamily() []Pat {
+	atoms := []*Node{anyc(), lit('a'), set(false, 'a', 'b'), set(true, 'a')}
+	qs := []quant{{0, -1, false}, {1, -1, false}, {0, -1, true}, {1, -1, true}, {2, -1, false}, {2, -1, true}}
+	tails := []*Node{nil, lit('a'), lit('b'), litStr("ab")}
+	sufs := []*Node{nil, asrt('$'), lit('a'), lit('b'), &Node{K: KRef, Cap: 1}, asrt('b')}
+	var trees []*Node
+	for _, a := range atoms {
+		for _, q := range qs {
+			l := rep(a, q.min, q.max, q.lazy)
+			for _, t := range tails {
+				body := cat(l, t)
+				wraps := []*Node{
+					body,
+					atomicg(body),
+					capg(body),
+					{K: KGroup, Kids: []*Node{body}},
+					atomicg(capg(body)),
+					capg(atomicg(body)),
+					cat(capg(l), t),
+					cat(atomicg(l), t),
+				}
+				for _, w := range wraps {
+					for _, sf := range sufs {
+						if sf == nil {
+							trees = append(trees, w)
+						} else {
+							trees = append(trees, cat(w, sf))
+						}
+					}
+				}
+			}
+		}
+	}
+	return finalize("BUMP", trees, map[string]bool{}, false)
+}
+
 // ---- LOOP ----
 
 func loopFamily(nullableBodies bool) []Pat {
